@@ -45,6 +45,9 @@ CHECKS = {
  "C11": dict(tech="TLC model checking of Codec.tla (field layout with width-limited lengths) and Pool.tla (buffer ownership) + TLC trace validation of real encode/decode results against TraceCodec.tla",
     text="Codec.tla enumerates all entry lists of a small class universe through an abstract Data.Encode/Decode with W-bit length fields (RoundTrip holds iff every length fits; the truncation is pinpointed otherwise) and Pool.tla checks that no returned result aliases a pooled buffer. The real codecs are driven with lists built from the same classes at the real boundaries (16-bit), and returned slices are re-compared after concurrent encoder/wal activity; TLC judges the recorded results against the contract (always equal).",
     note="the family fits this property least: byte strings are sampled per class; known finding D11 (lengths >= 65536 truncated) is reported as KNOWN-FINDING"),
+ "C15": dict(tech="TLC model checking of Conc.tla (deadlock freedom as invariant, termination of every call under weak fairness) + watchdog stress runs judged by TLC trace validation (Close/Open)",
+    text="Conc.tla keeps only the blocking structure: oracle.writeLock, db.mu, levelManager.mu, flushC with capacity 0..2, the Close handshake and the commit mark Begin waits for; TLC shows that the only state without a successor is 'all calls returned and closed', that Close implies the flusher stopped with nothing queued, and under weak fairness that every call returns; four deviation switches (send under db.mu, lock-order inversion, missing doneCommit, exit with a non-empty queue) are found. Real stress scenarios run under a watchdog, and the recorded history including Close and the immediate reopen is judged against AbsTxn.tla.",
+    note="bounded model (<=3 clients); real schedules sampled; Close concurrent with in-flight calls is outside the property"),
  "C16": dict(tech="TLC model checking of Filter.tla (no false negative for arbitrary hash functions) + TLC trace validation of real filter.Build/Contains and recovery-rebuilt filters against TraceFilter.tla",
     text="Filter.tla proves, for every assignment of hash functions of a small instance, that an added key is never denied, and flags mismatched seeds and the versioned-vs-user key pairing. The real filter is built from generated entry sets (1..50000 entries, five key shapes, several versions per key) and queried for every member, directly and through a table file whose handle is rebuilt by recovery; TLC validates the aggregate events.",
     note="essentially a pure function: the model adds the contract and the ParseKey pairing; hashing arithmetic is exercised, not modelled"),
